@@ -85,6 +85,9 @@ def cases(tier, seed):
             continue
         for k in range(1, n + 2):
             out.append({"k": "pc", "fam": [fam], "n": n, "rank": k, "tol": tol, "dt": dt, "cls": "Dense"})
+    for fam, n in itertools.product(["geom", "unif", "lowrank", "tied"], [n_ for n_ in ns if n_ >= 3]):
+        for k in (2, n, n + 1):
+            out.append({"k": "pc", "fam": [fam], "n": n, "rank": k, "tol": None, "dt": "f64", "cls": "Dense", "twice": True})
     mixes = [["geom", "lowrank"], ["lowrank1", "unif"], ["tied", "lowrank"], ["geom", "unif", "clustered"], ["lowrank", "lowrank1", "constdiag"]]
     # members of different magnitude and different numerical rank: the early stop must wait for the slowest member relative to ITS OWN scale
     scaled = [["lowrank1@1000", "lowrank"], ["lowrank", "lowrank1@1e-3"], ["geom@1e-4", "lowrank1"], ["lowrank1@100", "tied", "lowrank@0.01"]]
@@ -128,6 +131,12 @@ def run(case):
     k = case["rank"]
     tol_arg = case["tol"]
     etol = tol_arg if tol_arg is not None else env.settings.preconditioner_tolerance.value()
+    if case.get("twice"):
+        # the same operator object was factorized before under a loose preconditioner_tolerance: the answer may not be served from then
+        env.set_settings({"preconditioner_tolerance": 0.5})
+        call(op.pivoted_cholesky, k, error_tol=None, return_pivots=True)
+        env.set_settings({"preconditioner_tolerance": 1e-8})
+        etol = 1e-8
     got = call(op.pivoted_cholesky, k, error_tol=tol_arg, return_pivots=True)
     nontriv = N >= 2 and k >= 2
     if isinstance(got, Raised):
